@@ -87,6 +87,8 @@ def env():
             if key not in self.table:
                 return super(RecCtx, self).check_output(cmd, timeout=timeout, keep_rc=keep_rc, env=env, signum=signum)
             out = self.table[key]
+            if isinstance(out, tuple):
+                raise CalledProcessError(out[1], key, "recorded failure")
             return (0, out) if keep_rc else out
 
     e.RecCtx = RecCtx
@@ -98,7 +100,7 @@ def env():
             return cls.__call__(self, broker)
         return type(cls.__name__, (cls,), {"__call__": __call__})
 
-    for n in ("simple_file", "simple_command", "command_with_args", "foreach_execute", "foreach_collect", "glob_file",
+    for n in ("first_of", "simple_file", "simple_command", "command_with_args", "foreach_execute", "foreach_collect", "glob_file",
               "container_collect", "container_execute"):
         setattr(e, n, counted(getattr(sf, n)))
     _ENV = e
@@ -191,6 +193,7 @@ class Built(object):
         self.comps = []          # every generated component (for registry clean-up)
         self.classes = []
         self.table = {}
+        self.vanish = []         # files removed after evaluation and before the persister sees their provider
         self.originals = None    # per spec: list of (content | None, cmd, args) captured after collection
         self.brokers = None      # per spec: the host broker that collected it
         self.hydration = None
@@ -206,12 +209,12 @@ def _arg_of(el, default):
     return tuple(a) if isinstance(a, list) else a
 
 
-def _answer(b, command, lines):
+def _answer(b, command, lines, raises=False):
     """Registers the recorded output of `command` (keyed the way RecCtx sees it: shlex words joined by blanks)."""
     key = " ".join(shlex.split(command))
     if key in b.table:
         raise ValueError("two elements produce the same command %r" % key)
-    b.table[key] = text_of(lines)
+    b.table[key] = ("raise", 3) if raises else text_of(lines)
 
 
 def _save_as(mode, sid, n):
@@ -241,7 +244,7 @@ def build(specs, top, pool=None, cls_suffix=""):
         pass
     b.pool = pool
     serial = next(_SERIAL)
-    points, impls, attrs = {}, {}, []
+    points, impls, attrs, helpers = {}, {}, [], {}
 
     def write_file(rel, lines):
         p = os.path.join(b.root, rel.lstrip("/"))
@@ -268,23 +271,27 @@ def build(specs, top, pool=None, cls_suffix=""):
         datasource(HostContext)(impl)
         return impl
 
-    for i, spec in enumerate(specs):
+    def make(spec, sid):
+        """One datasource for a spec descriptor (the implementation of a registry point, or an alternative of first_of)."""
         kind, mode, elems = spec["kind"], spec.get("save_as", "none"), spec.get("elems", [])
-        sid = "s%02d" % i
-        attr = spec.get("attr") or "p%02d" % i
-        if attr in points:
-            raise ValueError("duplicate attribute name %r" % attr)
-        attrs.append(attr)
-        multi = kind not in SINGLE and kind != "fail"
         if kind in SINGLE and len(elems) != 1:
             raise ValueError("kind %s takes exactly one element" % kind)
         names = [el["n"] for el in elems]
+        if kind == "first_of":
+            alts = [make(a, "%sa%d" % (sid, k)) for k, a in enumerate(spec["alts"])]
+            for k, a in enumerate(alts):
+                helpers["h_%s_a%d" % (sid, k)] = a
+            return e.first_of(alts)
         if kind in ("text", "raw"):
-            write_file("/src/%s/%s" % (sid, names[0]), elems[0]["lines"])
+            if not spec.get("missing"):          # "missing": the file does not exist -> the datasource fails when evaluated
+                fp = write_file("/src/%s/%s" % (sid, names[0]), elems[0]["lines"])
             impl = e.simple_file("/src/%s/%s" % (sid, names[0]), save_as=_save_as(mode, sid, names[0]), context=HostContext,
                                  kind=sf.RawFileProvider if kind == "raw" else sf.TextFileProvider)
+            if spec.get("vanish") and not spec.get("missing"):
+                b.vanish.append((impl, fp))      # "vanish": present when evaluated, gone when the persister reads it
         elif kind == "cmd":
-            b.table["/bin/echo %s" % sid] = text_of(elems[0]["lines"])
+            # "raises": the command fails (exit 3) when its output is first read, i.e. while the persister writes it
+            b.table["/bin/echo %s" % sid] = ("raise", 3) if spec.get("raises") else text_of(elems[0]["lines"])
             impl = e.simple_command("/bin/echo %s" % sid, save_as=_save_as(mode, sid, names[0]), context=HostContext,
                                     keep_rc=bool(spec.get("keep_rc")), split=bool(spec.get("split", True)))
         elif kind == "cmd_real":
@@ -310,7 +317,7 @@ def build(specs, top, pool=None, cls_suffix=""):
             for el in elems:
                 a = _arg_of(el, (el["n"], "x") if kind == "m_cmd2" else el["n"])
                 vals.append(a)
-                _answer(b, template % a, el["lines"])
+                _answer(b, template % a, el["lines"], raises=bool(el.get("raises")))
             src = source(vals)
             impl = e.foreach_execute(src, template, context=HostContext, keep_rc=bool(spec.get("keep_rc")))
         elif kind == "cmd_args":
@@ -359,13 +366,29 @@ def build(specs, top, pool=None, cls_suffix=""):
             impl = counted_fn(boom)
         else:
             raise ValueError("unknown kind %r" % kind)
-        points[attr] = sf.RegistryPoint(multi_output=multi, raw=kind in ("raw", "m_raw") or not spec.get("split", True))
+        return impl
+
+    def is_multi(spec):
+        if spec["kind"] == "first_of":
+            return is_multi(spec["alts"][0])
+        return spec["kind"] not in SINGLE and spec["kind"] != "fail"
+
+    for i, spec in enumerate(specs):
+        kind = spec["kind"]
+        attr = spec.get("attr") or "p%02d" % i
+        if attr in points:
+            raise ValueError("duplicate attribute name %r" % attr)
+        attrs.append(attr)
+        impl = make(spec, "s%02d" % i)
+        points[attr] = sf.RegistryPoint(multi_output=is_multi(spec), raw=kind in ("raw", "m_raw") or not spec.get("split", True))
         impls[attr] = impl
 
     pts = dict(points)
     pts["__module__"] = MODULE
     S = type("S%06d%s" % (serial, cls_suffix), (sf.SpecSet,), pts)
     imp = dict(impls)
+    imp.update(helpers)                  # alternatives of first_of: datasources of the class that implement no registry point
+    b.comps.extend(helpers.values())
     imp["__module__"] = MODULE
     D = type("D%06d%s" % (serial, cls_suffix), (S,), imp)
     b.classes = [S, D]
@@ -389,7 +412,7 @@ def _content(e, prov):
     """The lines collection holds for a provider; None when reading them raises (empty under HostContext)."""
     try:
         c = prov.content
-    except e.ContentException:
+    except Exception:            # empty on a host, command failed, file vanished: collection holds no content
         return None
     return c if isinstance(c, (bytes, str)) else list(c)      # str: unsplit command output (split=False)
 
@@ -404,6 +427,13 @@ def collect(b, only=None):
     broker = dr.Broker()
     broker[e.HostContext] = ctx
     h = e.serde.Hydration(b.out, ctx, pool=b.pool)
+    if b.vanish:
+        def vanish(comp, broker):
+            # fires right after the file's own datasource was evaluated, i.e. before its registry point is persisted
+            for owner, fp in b.vanish:
+                if owner is comp and os.path.exists(fp):
+                    os.remove(fp)
+        broker.add_observer(vanish)
     broker.add_observer(h.make_persister(set(b.points[i] for i in idx)))
     g = {}
     for i in idx:
